@@ -285,9 +285,11 @@ class StreamResult:
 
 def _serve(binary, reqfile, outfile):
     with open(reqfile) as fin, open(outfile, "w") as fout:
-        p = subprocess.run([binary], stdin=fin, stdout=fout, stderr=subprocess.DEVNULL,
+        p = subprocess.run([binary], stdin=fin, stdout=fout, stderr=subprocess.PIPE,
                            env=dict(os.environ, GOMEMLIMIT="6GiB"))
-    return p.returncode
+    # the oracle's last stderr line says how much it asked concurrently
+    m = re.search(rb"STORM groups=(\d+) calls=(\d+) first=(\d+)", p.stderr[-400:] if p.stderr else b"")
+    return (p.returncode, tuple(int(x) for x in m.groups()) if m else (0, 0, 0))
 
 
 def response_kind(resp):
@@ -329,6 +331,12 @@ def run_stream(name, requests, workdir, nworkers=NCPU, compare=None, weight=None
                 futs.append(ex.submit(_serve, binary, rq, im))
             futs.append(ex.submit(_serve, DRIVER, rq, mo))
         rcs = [f.result() for f in futs]
+    res.concurrent = {"groups_asked_concurrently": sum(r[1][0] for r in rcs), "concurrent_calls": sum(r[1][1] for r in rcs),
+                      "requests_asked_concurrently_first": sum(r[1][2] for r in rcs)}
+    res.local_zones = {}
+    for r in requests:
+        z = r.split(" ")[0][4:] if r.startswith("@tz=") else "(zone of the check: UTC)"
+        res.local_zones[z] = res.local_zones.get(z, 0) + 1
     seen = set()
     selfcases = []
     for (rq, im, mo), ch in zip(files, chunks):
